@@ -14,6 +14,24 @@ fn pool(rng: &mut Rng, n_inputs: usize) -> Vec<Case> {
             enc_bytes(&text, enc).unwrap_or_else(|| text.into_bytes())
         })
         .collect();
+    // siblings: the same content with / without trailing white space (messy enough for a non-zero chaos)
+    let mut bases = bases;
+    let nb = bases.len();
+    for k in 0..nb.min(4) {
+        let mut b = bases[k].clone();
+        if b.len() > 40 && std::str::from_utf8(&b).is_ok() {
+            for j in 0..(b.len() / 60).max(1) {
+                let pos = 10 + j * 50;
+                if pos < b.len() && b[pos] < 0x80 {
+                    b[pos] = 0x1b;
+                }
+            }
+            let mut with_nl = b.clone();
+            with_nl.extend_from_slice(*rng.pick(&[&b"\n"[..], &b" "[..], &b"\r\n"[..], &b"\n\n"[..]]));
+            bases.push(b);
+            bases.push(with_nl);
+        }
+    }
     for b in bases {
         let mut variants = vec![Sett::default()];
         let mut s = Sett::default();
